@@ -12,7 +12,9 @@ mkdir -p /tmp/mut
 if [ ! -d $wt ]; then git -C /repo worktree add -q --detach $wt HEAD || exit 9; fi
 git -C $wt checkout -q -- . && git -C $wt checkout -q --detach $(git -C /repo rev-parse HEAD) || exit 9
 git -C $wt apply "$patch" || { echo "patch does not apply"; exit 9; }
+rm -f /verif/.build/try$tag-$variant/simcheck   # a failed build must not leave an older binary (built against another change) to be run
 cd /verif && make -s -j16 REPO=$wt VARIANT=$variant B=.build/try$tag-$variant 2>&1 | grep -E "error|Error" | head
+[ -x .build/try$tag-$variant/simcheck ] || { echo "try_mutation: BUILD FAILED"; git -C $wt checkout -q -- .; echo "try_mutation: exit 9"; exit 9; }
 ./.build/try$tag-$variant/simcheck "$prop" --tier quick --evidence /tmp/mut/try_evidence$tag.json "$@"
 rc=$?
 git -C $wt checkout -q -- .
